@@ -1,0 +1,13 @@
+//go:build verif
+
+// Verification hooks (build tag verif) for property C07: the framing constants of a data file (magic, version, sizes the
+// readers test against). No behaviour.
+package immutable
+
+// VerifFileConsts returns the file magic bytes and the numeric framing constants.
+func VerifFileConsts() ([]byte, map[string]uint64) {
+	return []byte(tableMagic), map[string]uint64{
+		"file_version": version, "file_header_size": uint64(fileHeaderSize), "mindex_len": uint64(MetaIndexLen),
+		"trailer_min_size": uint64(trailerSize),
+	}
+}
